@@ -66,6 +66,7 @@ pub fn prod_case(rep: &Report, sub: &Subject, file: &[u8], p: &[u8], sender: &[u
 
 pub fn run(rep: &'static Report) {
     rep.set_rule("E-GRAPH: breadth-first explicit-state search (stateright) from authentic files over the edit alphabet; in every reachable state the real decryptor is run on the state's bytes and compared with the acceptance model (the property statement), which is itself cross-checked against REF. Plus E-GRID: deviation-bounded words of REF-minted records through the real chunk loop, and (production size) every/selected single-bit flip and truncation of a 2-chunk file. distinct_nontrivial counts unique graph states (byte strings) + minted words");
+    rep.rule_add("Library level: decryption/encryption into sinks of bounded capacity succeed exactly when everything fitted. CLI: the reader of the stdout pipe leaves after 0/1/100/4096/65536 bytes of a 4-chunk plaintext: never exit 0.");
     rep.rule_add("CLI level: 26 authentic/edited files x 3 output wirings x 3 input wirings; E-ENV short-count sinks with <=1 short read and <=2 short writes for every tiny authentic stream and the production file.");
     rep.assume("forgery resistance of ChaCha20-Poly1305 / X25519 (an edit sequence cannot produce a second valid file other than a corpus file)");
     rep.assume("authentic corpus files are written by REF (independent of the encryptor under test); key/plaintext values from seed-derived alphabets");
@@ -120,6 +121,8 @@ pub fn run(rep: &'static Report) {
     rep.sample(json!({"graph":"key","init":"A = S->R 'abcdef' as 2+2+2 (234 bytes)","path":["SwapRec(0,1)","SetCounter(0,1)"],"expect":"reject"}));
     rep.sample(json!({"graph":"key","init":"A","path":["Trunc(198)"],"meaning":"truncation exactly at the end of chunk 1","expect":"reject"}));
     rep.sample(json!({"graph":"key","init":"A","path":["HdrField(A2, enc_payload)"],"meaning":"handshake field of another authentic file to the same recipient spliced in","expect":"reject"}));
+    crate::c10::bounded_sink_cases(rep, "C03");
+    crate::c04::reader_leaves_cases(rep, "C03");
     rep.set_exhaustive(true);
 }
 
@@ -352,6 +355,14 @@ fn cli_level(rep: &Report) {
 }
 
 pub fn replay(rep: &'static Report, case: &Value) {
+    if case["kind"] == "reader-leaves" {
+        crate::c04::reader_leaves_cases(rep, "C03");
+        return;
+    }
+    if case["kind"] == "bounded-sink" {
+        crate::c10::bounded_sink_cases(rep, "C03");
+        return;
+    }
     if case["kind"] == "cli" {
         println!("  re-running the CLI-level part of C03");
         cli_level(rep);
